@@ -36,6 +36,14 @@ CHECKS = {
         "antisymmetry, agreement with real time below 2^31 ms, operator consistency and transitivity on boundary-biased tuples.",
         "Sampled histories (<= 80 events, 4 sources); no verdict within 2 ms of the lifetime boundary; lazy purging between receptions is a recorded known finding.",
     ),
+    "C06": (
+        "model-based history testing (hypothesis event lists, virtual timers) plus generated multi-station flood topologies on a simulated ether",
+        "Reception histories with frequent duplicates/replays, RHL 0..255, SN wrap, DPL lengths 1/2/8, SIMPLE and CBF are run on the real "
+        "router and every indication and transmitted frame is checked against a duplicate-packet-list model and byte-compared with the "
+        "received frame (RHL-1, DE PV rule); floods in drawn line/mesh topologies of real stations are checked for termination, at-most-once "
+        "transmission/delivery, exactly-once delivery under SIMPLE, and decreasing RHL.",
+        "Sampled histories (<= 60 frames) and topologies (<= 5 stations); PDR limiting disabled via MIB; exactly-once delivery not demanded under CBF (suppression is inherent).",
+    ),
 }
 
 NOT_APPLICABLE = {
